@@ -121,6 +121,9 @@ def main(argv):
             ob.bundle = 'step'
         all_obls += r
     S.discharge(all_obls, timeout_ms, second=(tier == 'thorough'))
+    if tier == 'thorough':
+        from pyvc import replay as R
+        cfg = dict(cfg, thorough_native=R.thorough_native(cfg['bundles'], root))
     claimed = [o for o in all_obls if pid in o.tags]
     deps = [o for o in all_obls if pid not in o.tags]
     return decide(pid, tier, seed, t0, cfg, claimed, deps, functions, unsupported, assumptions, dropped, assumed_contracts, root, repo)
@@ -281,6 +284,18 @@ def decide(pid, tier, seed, t0, cfg, claimed, deps, functions, unsupported, assu
         'wall_s': round(time.time() - t0, 2),
         'violations': sum(1 for l in lines if l.startswith('VIOLATION')),
     }
+    if tier == 'thorough' and cfg.get('thorough_native'):
+        tn = cfg['thorough_native']
+        for k in ('assumption_tests', 'runtime_contracts'):
+            if k in tn:
+                ev['coverage'][k] = tn[k]
+        rc = tn.get('runtime_contracts') or {}
+        if rc.get('violation') and not violations and not findings_matched:
+            # the prover discharged every obligation but a clause fails at run time on the real code: unsound engine or wrong library model
+            tn['guard'].append('run-time contract violation although every obligation was discharged: %s / %s' % (rc['violation'].get('method'), rc['violation'].get('clause')))
+        for g in tn.get('guard', []):
+            print('GUARD property=%s %s' % (pid, g))
+            code = max(code, 3) if code != 1 else 1
     if tier == 'thorough':
         agree = [o for o in claimed if o.result.get('second')]
         ev['coverage']['second_solver'] = {'checked': len(agree), 'disagree': [o.name for o in agree if o.result['second']['status'] in ('sat', 'unsat')
